@@ -85,7 +85,11 @@ def gen_ops(rng, nctor, nops):
         r = rng.random()
         if nctx == 0 or r < 0.35:
             p = None if nctx == 0 or rng.random() < 0.3 else rng.randrange(nctx)
-            ops.append(("plain", p))
+            if rng.random() < 0.3:
+                # Context(parent, data=value): the layer defines `$` - also when the value is None
+                ops.append(("plaindata", p, rng.choice([0, 0, 5, 7])))
+            else:
+                ops.append(("plain", p))
         elif r < 0.6:
             k = rng.choice([1, 2, 2, 3])
             ops.append(("multi", [rng.randrange(nctx) for _ in range(k)]))
@@ -151,6 +155,9 @@ def run_impl(ops):
             k = op[0]
             if k == "plain":
                 env.append(contexts.Context(None if op[1] is None else env[op[1]], convention=conv))
+            elif k == "plaindata":
+                env.append(contexts.Context(None if op[1] is None else env[op[1]], data=(None if op[2] == 0 else op[2]),
+                                            convention=conv))
             elif k == "multi":
                 env.append(contexts.MultiContext([env[i] for i in op[1]], convention=conv))
             elif k == "linked":
@@ -169,7 +176,7 @@ def run_impl(ops):
             out = 1
         except Exception as e:        # any other exception class is outside the model: reported
             out = 2
-            if op[0] in ("plain", "multi", "linked", "child"):
+            if op[0] in ("plain", "plaindata", "multi", "linked", "child"):
                 res.append((out, -1, "%s: %r" % (type(e).__name__, e)))
                 return res, False
         try:
@@ -179,6 +186,23 @@ def run_impl(ops):
             res.append((out, -2, "observation raised %s: %r" % (type(e).__name__, e)))
             return res, False
     return res, True
+
+
+def cop_term(op, nctx_before):
+    """One API call = one or two model operations."""
+    if op[0] == "plaindata":
+        return "(Two %s %s)" % (gal.app("ONewPlain", gal.opt(op[1], gal.nat)),
+                                 gal.app("OSet", gal.nat(nctx_before), gal.s("$"), gal.z(op[2])))
+    return "(One %s)" % op_term(op)
+
+
+def cop_terms(ops):
+    out, n = [], 0
+    for o in ops:
+        out.append(cop_term(o, n))
+        if o[0] in ("plain", "plaindata", "multi", "linked", "child"):
+            n += 1
+    return out
 
 
 def op_term(op):
@@ -208,17 +232,17 @@ HEADER = "From YV Require Import Model.Contexts."
 
 def case_term(ops, res):
     camel, ops = is_camel(ops), strip_marker(ops)
-    return "{| c_names := %s; c_fnames := %s; c_ops := %s; c_obs := %s |}" % (
+    return "{| cc_names := %s; cc_fnames := %s; cc_ops := %s; cc_obs := %s |}" % (
         gal.lst(gal.s(n) for n in NAMES), gal.lst(gal.s(m) for m, _, _ in queries(camel)),
-        gal.lst(op_term(o) for o in ops),
+        gal.lst(cop_terms(ops)),
         gal.lst(gal.pair(gal.z(a), gal.z(b)) for a, b, _ in res))
 
 
 def first_divergence(run, ops, res):
     camel, ops = is_camel(ops), strip_marker(ops)
     """Index of the first op after which model and implementation differ."""
-    txt = run.coq_eval(HEADER, "run init_state %s %s %s" % (
-        gal.lst(gal.s(n) for n in NAMES), gal.lst(gal.s(m) for m, _, _ in queries(camel)), gal.lst(op_term(o) for o in ops)))
+    txt = run.coq_eval(HEADER, "runc init_state %s %s %s" % (
+        gal.lst(gal.s(n) for n in NAMES), gal.lst(gal.s(m) for m, _, _ in queries(camel)), gal.lst(cop_terms(ops))))
     import re
     pairs = re.findall(r"\(\s*(-?\d+)%?Z?\s*,\s*(-?\d+)%?Z?\s*\)", txt.replace("\n", " "))
     model = [(int(a), int(b)) for a, b in pairs]
@@ -235,7 +259,7 @@ def shrink(run, ops):
             res, _ = run_impl(cand)
         except Exception:
             return False
-        return bool(run.coq_mismatches(HEADER, "case", "case_ok", [case_term(cand, res)]))
+        return bool(run.coq_mismatches(HEADER, "ccase", "ccase_ok", [case_term(cand, res)]))
 
     def renumber(cand, removed_ctor_index):
         return None   # ops that create contexts are not removed (indices would shift)
@@ -305,7 +329,7 @@ def correspondence(run):
             continue
         cases.append(case_term(ops, res))
         meta.append((ops, res))
-    bad = run.coq_mismatches(HEADER, "case", "case_ok", cases, shard=100)
+    bad = run.coq_mismatches(HEADER, "ccase", "ccase_ok", cases, shard=100)
     for i in bad:
         report(run, meta[i][0], meta[i][1], "observations differ")
 
@@ -332,4 +356,4 @@ def replay(run, data):
     res, complete = run_impl(ops)
     if not complete:
         return False
-    return not run.coq_mismatches(HEADER, "case", "case_ok", [case_term(ops, res)])
+    return not run.coq_mismatches(HEADER, "ccase", "ccase_ok", [case_term(ops, res)])
